@@ -5,7 +5,7 @@ open TbbVerif.C08 (Word Phase busy dec_enc enc_inj)
 
 /-- thread `t` is about to notify (or, after downgrade's fetch_add, about to decide it) the waiters of context `c` -/
 def Covers (t : Th) (c : Nat) : Prop :=
-  (t.pc = .notify ∧ (t.mw.n = .peek ∨ t.mw.n = .flush) ∧ t.mw.nsel.sel c = true) ∨ (t.pc = .dgLoad ∧ c = 1)
+  (t.pc = .notify ∧ (t.mw.n = .peek ∨ t.mw.n = .flush) ∧ (t.mw.nsel = .all ∨ t.mw.nsel = .ctx c)) ∨ (t.pc = .dgLoad ∧ c = 1)
 
 /-- **wake rules**: whenever one access of a thread turns the wake-up condition of a waiter kind from false to true,
 that same thread goes on to notify that kind's context -/
@@ -38,19 +38,19 @@ theorem wake_rules_step (tid sm : Nat) (s : Word) (m : Mon) (t : Th) (k : WKind)
       cases k with
       | writer =>
         cases op <;> simp only [stepOp, lockBody] <;> split <;> (try contradiction) <;> (try split) <;> (try split) <;> (try split) <;>
-          simp_all [WKind.cond, busy, Covers, startNotify, startWait, relSel, Sel.sel, WKind.ctx, Th.done]
+          simp_all [WKind.cond, busy, Covers, startNotify, startWait, relSel, WKind.ctx, Th.done]
         all_goals (try (intros; cases s.p <;> simp; done))
         all_goals (try (intros; omega))
       | reader =>
         cases op <;> simp only [stepOp, lockBody] <;> split <;> (try contradiction) <;> (try split) <;> (try split) <;> (try split) <;>
-          simp_all [WKind.cond, busy, Covers, startNotify, startWait, relSel, Sel.sel, WKind.ctx, Th.done]
+          simp_all [WKind.cond, busy, Covers, startNotify, startWait, relSel, WKind.ctx, Th.done]
         all_goals (try (intros; cases s.p <;> simp_all; done))
         all_goals (try (rename_i he; rw [← he, dec_enc]; assumption))
         all_goals (try (intros; omega))
       | upg =>
         have h2' := h2 rfl
         cases op <;> simp only [stepOp, lockBody] <;> split <;> (try contradiction) <;> (try split) <;> (try split) <;> (try split) <;>
-          simp_all [WKind.cond, busy, Covers, startNotify, startWait, relSel, Sel.sel, WKind.ctx, Th.done]
+          simp_all [WKind.cond, busy, Covers, startNotify, startWait, relSel, WKind.ctx, Th.done]
         all_goals (try (intros; cases s.p <;> simp_all; done))
         all_goals (try (rename_i he; rw [← he, dec_enc]; assumption))
         all_goals (try (intros; omega))
